@@ -180,7 +180,15 @@ func (r *Report) finish(tier string, seed int, start time.Time, cmdline string) 
 		case stRefuted:
 			isKnown := false
 			for _, k := range known {
-				if k.Status == "known" && k.Property == r.Prop && k.Rule == o.Rule && k.Construct == o.Construct {
+				// the thorough tier repeats the rules for other build targets and tags the construct
+				// "[GOARCH=.. GOOS=..] <construct>": the same finding
+				construct := o.Construct
+				if strings.HasPrefix(construct, "[GO") {
+					if i := strings.Index(construct, "] "); i > 0 {
+						construct = construct[i+2:]
+					}
+				}
+				if k.Status == "known" && k.Property == r.Prop && k.Rule == o.Rule && k.Construct == construct {
 					isKnown = true
 					lines = append(lines, fmt.Sprintf("KNOWN-FINDING: property=%s rule=%s construct=%s %s", r.Prop, o.Rule, o.Construct, k.What))
 				}
